@@ -16,6 +16,11 @@ CHECKS = {
          "Tied to the real Accumulator by running random histories (catch_unwind, drop during unwinding) against model and specification inside Coq.",
          "Coq proof (refinement to abstract spec by induction over histories) + per-run differential correspondence"),
 }
+CHECKS["C11"] = ("Coq theorems: std's checked digit loop (as used by both the quoted and unquoted path) accepts exactly the signed decimal numerals whose mathematical value is in the target's range "
+         "(non-zero for NonZero) and returns that value, for all 24 targets and digit strings of any length; unquoted/quoted exactness, quoted = unquoted for plain decimals, no input yields an "
+         "out-of-range value, every rejection is a spanned error and never a panic; bool/char/String tables; floats relative to the std oracle. Tied to core/src/from_meta.rs by running "
+         "boundary/odd/wrong-form literals through the real from_meta and the model inside Coq (thorough: exhaustive [-70000,70000] x 24 x 2 interval sweep).",
+         "Coq proof (loop invariant over digit lists, Z arithmetic) + per-run differential correspondence")
 PARTIAL = {}
 def chk(pid):
     text, tech = CHECKS[pid]
